@@ -1,0 +1,7 @@
+//go:build !verif
+
+package kmipserver
+
+// verifYield is a no-op unless the package is built with the "verif" tag
+// (verification harness yield points).
+func verifYield(string) {}
